@@ -561,6 +561,15 @@ def roundtrip_case(ctx, rng, open_, method, het, exact):
     for st in r1.states:
         a = st.full()
         if open_:
+            scale = float(np.abs(a).max())
+            if scale > 1e3:
+                # the trajectory has diverged (step too coarse for this scheme
+                # on this system): b(rho) = C rho - tr(C rho) rho then cancels
+                # catastrophically in floating point and trace / Hermiticity
+                # are lost to rounding, not to the scheme [NUM]; counted, not
+                # judged (the bitwise replay checks below still apply)
+                ctx.cov["diverged_roundtrips"] = ctx.cov.get("diverged_roundtrips", 0) + 1
+                break
             if abs(np.trace(a) - 1) > 1e-9 or np.abs(a - a.conj().T).max() > 1e-9:
                 found.append(("sode:%s" % method, "trace-or-hermiticity",
                               "state with trace %r / non-Hermitian part %.3g"
